@@ -19,6 +19,14 @@ def run : P String := do
       let k ← nat
       let insts ← many k inst
       pure (" ".intercalate ((verticesField f insts).map out))
+  | "seg" => do
+      -- one row of BHJM_current_polyline (the wrapper: start == end rows, on-the-line mask, J = M = 0, B = mu0 H)
+      let f ← field
+      let c ← flt
+      let p1 ← v3
+      let p2 ← v3
+      let po ← v3
+      pure (out (bhjmSegment f c p1 p2 po))
   | t => throw s!"unknown poly command {t}"
 
 def step (line : String) : String :=
